@@ -39,6 +39,7 @@ ZooKeeper read of _cache tolerates exactly the missing node.
 Sweep: C12.1 the children watch re-arms (answers True) and every notification reaches _synchronize; C12.3 the fs helpers tolerate exactly the benign errno and raise everything else, fs.replace moves temp to final; C12.5 the task id is the one of the placement record, and exactly NoNodeError is tolerated when a manifest is gone.
 Fifth round: C12.5 the cache file is written in the format appcfg.manifest.load parses.
 Sixth round: C12.1 a failure to cache an instance escapes _synchronize (no handler around the _cache calls).
+Seventh round: no new clause (both seeds met C12.1 / C12.5 on first contact); the domain recognisers read .difference / .intersection spellings.
 Does NOT decide real crash atomicity of the file system nor convergence from
 arbitrary prior contents beyond the set algebra.
 """
